@@ -311,4 +311,166 @@ def modelledKeys : List (String × Nat) := [
 theorem modelled_source_unchanged :
     modelledKeys.all (fun p => Generated.Nsga2Src.keyOf p.1 == p.2) = true := by decide
 
+/-! ## 7. the ranks are the peeling ranks of the ORIGINAL objective vectors (faithful encodings) -/
+
+/-- the direction-normalised objective vector of a trial (`objective_values *= ±1`) -/
+def normRow (dirs : List Bool) (x : Ind XVal) : List XVal := List.zipWith normVal dirs x.values
+
+/-- every value the ranking compares: the normalised objective values of the population -/
+def valuesOf (dirs : List Bool) (pop : List (Ind XVal)) : List XVal := (pop.map (normRow dirs)).flatten
+
+/-- **Enc.Faithful** — on the values that occur the encoding is an order embedding of the float order (`<=` of `XVal`: NaN is not comparable)
+into the integers: it preserves and reflects `<=`, and distinct values get distinct codes.  (A population with a NaN objective value and any
+other value has no faithful encoding: `nan <= v` is false both ways.) -/
+structure _root_.OptunaVerif.Nsga2.Enc.Faithful (e : Enc) (vals : List XVal) : Prop where
+  le_iff : ∀ a ∈ vals, ∀ b ∈ vals, (encV e a ≤ encV e b ↔ XVal.le a b = true)
+  inj : ∀ a ∈ vals, ∀ b ∈ vals, encV e a = encV e b → a = b
+
+/-- domination of ORIGINAL objective vectors under the study's directions: nowhere worse, and not the same vector -/
+def VDom (dirs : List Bool) (y x : Ind XVal) : Prop :=
+  List.Forall₂ (fun a b => XVal.le a b = true) (normRow dirs y) (normRow dirs x) ∧ normRow dirs y ≠ normRow dirs x
+
+theorem lossRow_eq_map (e : Enc) (dirs : List Bool) (x : Ind XVal) : lossRow e dirs x = (normRow dirs x).map (encV e) := by
+  simp [lossRow, normRow, List.map_zipWith]
+
+theorem forall₂_enc (e : Enc) (vals : List XVal) (hf : e.Faithful vals) :
+    ∀ (A B : List XVal), (∀ a ∈ A, a ∈ vals) → (∀ b ∈ B, b ∈ vals) →
+      (List.Forall₂ (· ≤ ·) (A.map (encV e)) (B.map (encV e)) ↔ List.Forall₂ (fun a b => XVal.le a b = true) A B) := by
+  intro A
+  induction A with
+  | nil => intro B _ _; cases B <;> simp
+  | cons a A ih =>
+    intro B hA hB
+    cases B with
+    | nil => simp
+    | cons b B =>
+      simp only [List.map_cons, List.forall₂_cons]
+      rw [hf.le_iff a (hA a (List.mem_cons_self ..)) b (hB b (List.mem_cons_self ..)),
+        ih B (fun x hx => hA x (List.mem_cons_of_mem _ hx)) (fun x hx => hB x (List.mem_cons_of_mem _ hx))]
+
+theorem map_enc_inj (e : Enc) (vals : List XVal) (hf : e.Faithful vals) :
+    ∀ (A B : List XVal), (∀ a ∈ A, a ∈ vals) → (∀ b ∈ B, b ∈ vals) → A.map (encV e) = B.map (encV e) → A = B := by
+  intro A
+  induction A with
+  | nil => intro B _ _ h; cases B <;> simp_all
+  | cons a A ih =>
+    intro B hA hB h
+    cases B with
+    | nil => simp at h
+    | cons b B =>
+      simp only [List.map_cons, List.cons.injEq] at h
+      rw [hf.inj a (hA a (List.mem_cons_self ..)) b (hB b (List.mem_cons_self ..)) h.1,
+        ih B (fun x hx => hA x (List.mem_cons_of_mem _ hx)) (fun x hx => hB x (List.mem_cons_of_mem _ hx)) h.2]
+
+theorem mem_valuesOf (dirs : List Bool) (pop : List (Ind XVal)) (x : Ind XVal) (hx : x ∈ pop) :
+    ∀ a ∈ normRow dirs x, a ∈ valuesOf dirs pop := by
+  intro a ha
+  exact List.mem_flatten.mpr ⟨normRow dirs x, List.mem_map.mpr ⟨x, hx, rfl⟩, ha⟩
+
+/-- for a faithful encoding, domination of the encoded loss rows IS domination of the original objective vectors -/
+theorem dom_lossRow_iff (e : Enc) (dirs : List Bool) (pop : List (Ind XVal)) (hf : e.Faithful (valuesOf dirs pop))
+    (x y : Ind XVal) (hx : x ∈ pop) (hy : y ∈ pop) :
+    Dom (lossRow e dirs y) (lossRow e dirs x) ↔ VDom dirs y x := by
+  unfold Dom VDom Le
+  rw [lossRow_eq_map, lossRow_eq_map,
+    forall₂_enc e _ hf _ _ (mem_valuesOf dirs pop y hy) (mem_valuesOf dirs pop x hx)]
+  constructor
+  · rintro ⟨h1, h2⟩; exact ⟨h1, fun h => h2 (by rw [h])⟩
+  · rintro ⟨h1, h2⟩
+    exact ⟨h1, fun h => h2 (map_enc_inj e _ hf _ _ (mem_valuesOf dirs pop y hy) (mem_valuesOf dirs pop x hx) h)⟩
+
+/-- **elite_ranks_are_peeling_ranks_of_values.**  For a FAITHFUL encoding the ranks `_rank_population` hands to the selection are the peeling
+ranks of the ORIGINAL objective vectors under the study's directions: there is `ρ` on trials with `ranks = pop.map ρ` and, for every trial `x`
+and level `j ≤ ρ x`: `ρ x = j` iff no trial of rank ≥ j dominates `x` (`VDom`: original values, directions applied, float `<=`). -/
+theorem elite_ranks_are_peeling_ranks_of_values (e : Enc) (dirs : List Bool) (pop : List (Ind XVal))
+    (hv : ∀ x ∈ pop, x.values.length = dirs.length) (hf : e.Faithful (valuesOf dirs pop)) :
+    ∃ ρ : Ind XVal → Nat, ranksOf e dirs false pop = some (pop.map ρ) ∧
+      ∀ x ∈ pop, ∀ j, j ≤ ρ x → (ρ x = j ↔ ∀ y ∈ pop, j ≤ ρ y → ¬ VDom dirs y x) := by
+  obtain ⟨⟨h1, h2⟩, _⟩ := elite_ranks_are_peeling_ranks e dirs pop hv
+  refine ⟨fun x => rankFn dirs.length (pop.map (lossRow e dirs)) none (lossRow e dirs x), ?_, ?_⟩
+  · rw [h1]; simp [List.map_map, Function.comp_def]
+  · intro x hx j hj
+    have := h2 (lossRow e dirs x) (List.mem_map.mpr ⟨x, hx, rfl⟩) j hj
+    rw [this]
+    constructor
+    · intro h y hy hjy hd
+      exact h (lossRow e dirs y) (List.mem_map.mpr ⟨y, hy, rfl⟩) hjy ((dom_lossRow_iff e dirs pop hf x y hx hy).mpr hd)
+    · intro h q hq hjq hd
+      obtain ⟨y, hy, rfl⟩ := List.mem_map.mp hq
+      exact h y hy hjq ((dom_lossRow_iff e dirs pop hf x y hx hy).mp hd)
+
+/-- **faithful_of_common_den** — the encoding the driver is given (verif/props/c15_nsga.py `enc_for`: `den` = a common denominator of the
+finite values, `big` beyond every scaled finite value) is faithful on NaN-free values: `q * den` is an integer for every finite `q` that occurs,
+and it lies strictly between `-big` and `big`. -/
+theorem faithful_of_common_den (e : Enc) (vals : List XVal) (hden : 0 < e.den) (hbig0 : 0 < e.big)
+    (hnan : XVal.nan ∉ vals)
+    (hint : ∀ q, XVal.fin q ∈ vals → (((q * (e.den : Rat)).floor : Int) : Rat) = q * (e.den : Rat))
+    (hbig : ∀ q, XVal.fin q ∈ vals → -e.big < (q * (e.den : Rat)).floor ∧ (q * (e.den : Rat)).floor < e.big) :
+    e.Faithful vals := by
+  have hd : (0 : Rat) < (e.den : Rat) := by exact_mod_cast hden
+  have hfin : ∀ a b : Rat, XVal.fin a ∈ vals → XVal.fin b ∈ vals →
+      ((a * (e.den : Rat)).floor ≤ (b * (e.den : Rat)).floor ↔ a ≤ b) := by
+    intro a b ha hb
+    rw [← Int.cast_le (R := Rat), hint a ha, hint b hb]
+    exact mul_le_mul_iff_of_pos_right hd
+  have hfineq : ∀ a b : Rat, XVal.fin a ∈ vals → XVal.fin b ∈ vals →
+      (a * (e.den : Rat)).floor = (b * (e.den : Rat)).floor → a = b := by
+    intro a b ha hb h
+    have h' : (((a * (e.den : Rat)).floor : Int) : Rat) = (((b * (e.den : Rat)).floor : Int) : Rat) := by rw [h]
+    rw [hint a ha, hint b hb] at h'
+    exact mul_right_cancel₀ (ne_of_gt hd) h'
+  constructor
+  · intro a ha b hb
+    cases a with
+    | nan => exact absurd ha hnan
+    | ninf =>
+      cases b with
+      | nan => exact absurd hb hnan
+      | ninf => simp [encV, XVal.le]
+      | pinf => simp [encV, XVal.le]; omega
+      | fin q => have := hbig q hb; simp [encV, XVal.le]; omega
+    | pinf =>
+      cases b with
+      | nan => exact absurd hb hnan
+      | ninf => simp [encV, XVal.le]; omega
+      | pinf => simp [encV, XVal.le]
+      | fin q => have := hbig q hb; simp [encV, XVal.le]; omega
+    | fin p =>
+      cases b with
+      | nan => exact absurd hb hnan
+      | ninf => have := hbig p ha; simp [encV, XVal.le]; omega
+      | pinf => have := hbig p ha; simp [encV, XVal.le]; omega
+      | fin q => simpa [encV, XVal.le] using hfin p q ha hb
+  · intro a ha b hb h
+    cases a with
+    | nan => exact absurd ha hnan
+    | ninf =>
+      cases b with
+      | nan => exact absurd hb hnan
+      | ninf => rfl
+      | pinf => simp only [encV] at h; omega
+      | fin q => have := hbig q hb; simp only [encV] at h; omega
+    | pinf =>
+      cases b with
+      | nan => exact absurd hb hnan
+      | ninf => simp only [encV] at h; omega
+      | pinf => rfl
+      | fin q => have := hbig q hb; simp only [encV] at h; omega
+    | fin p =>
+      cases b with
+      | nan => exact absurd hb hnan
+      | ninf => have := hbig p ha; simp only [encV] at h; omega
+      | pinf => have := hbig p ha; simp only [encV] at h; omega
+      | fin q => simp only [encV] at h; rw [hfineq p q ha hb h]
+
+-- non-vacuity: the encoding `enc_for` computes for the values 1/2, 3/4, -inf, +inf (den = 4, big = 5) is faithful
+example : (⟨4, 5⟩ : Enc).Faithful [.fin (1/2), .fin (3/4), .ninf, .pinf] := by
+  refine faithful_of_common_den _ _ (by decide) (by decide) (by decide) ?_ ?_
+  · intro q hq
+    simp only [List.mem_cons, XVal.fin.injEq, reduceCtorEq, List.not_mem_nil, or_false] at hq
+    rcases hq with rfl | rfl <;> decide +kernel
+  · intro q hq
+    simp only [List.mem_cons, XVal.fin.injEq, reduceCtorEq, List.not_mem_nil, or_false] at hq
+    rcases hq with rfl | rfl <;> decide +kernel
+
 end OptunaVerif.C15Nsga
